@@ -75,11 +75,30 @@ pub type HeapStorage = SlotMap<DefaultKey, HeapObject>;
 /// Stable index into heap storage
 pub type HeapIdx = DefaultKey;
 
+/// Verification hook: record a heap lifecycle event. a = slot key,
+/// b = refcount after the operation (-1: key not live), c = live objects.
+#[cfg(mimium_verif)]
+fn verif_heap_event(kind: &'static str, storage: &HeapStorage, idx: HeapIdx) {
+    use slotmap::Key;
+    let rc = storage.get(idx).map_or(-1, |o| o.refcount as i64);
+    crate::runtime::verif_hooks::emit(
+        "heap",
+        kind,
+        idx.data().as_ffi() as i64,
+        rc,
+        storage.len() as i64,
+        0,
+        0,
+    );
+}
+
 /// Increment the reference count of a heap object.
 ///
 /// This should be called when creating a new reference to a heap object
 /// (e.g., copying a closure reference to another register).
 pub fn heap_retain(storage: &mut HeapStorage, idx: HeapIdx) {
+    #[cfg(mimium_verif)]
+    verif_heap_event("retain", storage, idx);
     if let Some(obj) = storage.get_mut(idx) {
         obj.refcount += 1;
         log::trace!("heap_retain: {:?} refcount -> {}", idx, obj.refcount);
@@ -101,6 +120,8 @@ pub fn heap_retain(storage: &mut HeapStorage, idx: HeapIdx) {
 /// - `heap_release_closure` for closures with captured heap objects
 /// - Future: `heap_release_variant` for recursive variant types
 pub fn heap_release(storage: &mut HeapStorage, idx: HeapIdx) {
+    #[cfg(mimium_verif)]
+    verif_heap_event("release", storage, idx);
     if let Some(obj) = storage.get_mut(idx) {
         obj.refcount -= 1;
         log::trace!("heap_release: {:?} refcount -> {}", idx, obj.refcount);
@@ -123,6 +144,8 @@ pub fn heap_release(storage: &mut HeapStorage, idx: HeapIdx) {
 /// - [3]: upvalue_count
 /// - [4..4+upvalue_count]: upvalues (may contain HeapIdx to other closures)
 pub fn heap_release_closure(storage: &mut HeapStorage, idx: HeapIdx) {
+    #[cfg(mimium_verif)]
+    verif_heap_event("release", storage, idx);
     // First, decrement refcount
     let should_free = if let Some(obj) = storage.get_mut(idx) {
         obj.refcount -= 1;
